@@ -264,6 +264,16 @@ def waveform(rng, kinds, rates, force=None):
         its = ['ep %s 0 %s %s' % (gq((Fraction(0), -h)), gq((-a, w)), fstr(d)), 'ep %s 0 %s %s' % (gq((Fraction(0), h)), gq((-a, -w)), fstr(d))]
         return {'kind': kind, 'args': '{%s*exp(-%s*(t-%s))*sin(%s*(t-%s))*u(t-%s)}' % (rat(A), rat(a), rat(d), rat(w), rat(d), rat(d)),
                 'items': its, 'causal': True}
+    if kind == 'sincosw':
+        # whole-axis  A cos(wt) + B sin(wt): two sinusoidal terms of ONE angular frequency in one source expression
+        Bv = sv(rng)
+        hb = Fraction(Bv) / 2
+        its = []
+        for sgn in (1, -1):
+            cf = (h, -sgn * hb)
+            its.append('pre %s 0 %s' % (gq(cf), gq((Fraction(0), sgn * w))))
+            its.append('ep %s 0 %s 0' % (gq(cf), gq((Fraction(0), sgn * w))))
+        return {'kind': kind, 'args': '{%s*cos(%s*t) + %s*sin(%s*t)}' % (rat(A), rat(w), rat(Bv), rat(w)), 'items': its, 'causal': False}
     if kind in ('sinw', 'cosw'):
         # whole-axis sinusoid written as an expression (phasor analysis before t = 0)
         its = []
@@ -276,8 +286,8 @@ def waveform(rng, kinds, rates, force=None):
 
 
 CAUSAL_KINDS = ['step', 'step', 'exp', 'exp', 'texp', 'ramp', 'dstep', 'dexp', 'delta', 'ddelta', 'dsin', 'cosu', 'sinu']
-WHOLE_KINDS = ['dc', 'dc', 'ac', 'step', 'sinw']
-SWEEP_KINDS = ['step', 'exp', 'texp', 'ramp', 'dstep', 'dexp', 'delta', 'ddelta', 'dsin', 'dcos', 'cosu', 'sinu', 'dsind', 'dc', 'ac', 'sinw', 'cosw']
+WHOLE_KINDS = ['dc', 'dc', 'ac', 'step', 'sinw', 'sincosw']
+SWEEP_KINDS = ['step', 'exp', 'texp', 'ramp', 'dstep', 'dexp', 'delta', 'ddelta', 'dsin', 'dcos', 'cosu', 'sinu', 'dsind', 'dc', 'ac', 'sinw', 'cosw', 'sincosw']
 
 
 # --------------------------------------------------------------------------- netlist generators
@@ -625,10 +635,36 @@ def gen_directed(rng, ic, kinds, shape=None):
       gyrator-RLC : V - R - L - GY - C  (second order; chosen natural frequencies)
       tr-am       : V - R - C, TR (gain a) driving R + AM + L (the ammeter carries the inductor current)
       am-series   : series RLC with an ammeter in the loop"""
-    shape = shape or rng.choice(['gyrator-C', 'gyrator-RLC', 'tr-am', 'am-series'])
+    shape = shape or rng.choice(['gyrator-C', 'gyrator-RLC', 'tr-am', 'am-series', 'ccvs-cap', 'ccvs-cap-series'])
     sym_was, B.symbolic = B.symbolic, False
     try:
         b = B(rng, ic, kinds)
+        if shape in ('ccvs-cap', 'ccvs-cap-series'):
+            # a CCVS whose controlling element is a CAPACITOR (control current C dv/dt, initial voltage v0):
+            #   ccvs-cap        : V - R1 - C1 ; H1 (controlled by C1) drives an R2 - L1 branch
+            #   ccvs-cap-series : V - R1 - H1 - C1 in one loop (the CCVS acts as a resistance h in series with its capacitor)
+            p1 = -Fraction(rng.randint(1, 4), rng.choice([1, 2]))
+            r1 = rv(rng)
+            hval = Fraction(rng.randint(1, 5), rng.choice([1, 2]))
+            b.src('V', ['1', '0'])
+            b.add('R', ['1', '2'], r1)
+            if shape == 'ccvs-cap':
+                p2 = -Fraction(rng.randint(1, 5), rng.choice([1, 2]))
+                r2 = rv(rng)
+                cn = b.react('C', ['2', '0'] if rng.random() < 0.6 else ['0', '2'], 1 / (r1 * -p1), p_ic=1.0)
+                nm = b.name('H')
+                l = '%s 3 0 %s %s' % (nm, cn, fs(hval * rng.choice([1, -1])))
+                b.model.append(l)
+                b.lcapy.append(l)
+                b.add('R', ['3', '4'], r2)
+                b.react('L', ['4', '0'], r2 / -p2)
+                return b.case('directed-HC:branch', 'real')
+            nm = b.name('H')
+            l = '%s 2 3 C1 %s' % (nm, fs(hval))
+            b.model.append(l)
+            b.lcapy.append(l)
+            b.react('C', ['3', '0'], 1 / ((r1 + hval) * -p1), p_ic=1.0)
+            return b.case('directed-HC:series', 'real')
         if shape == 'gyrator-C':
             r = rv(rng)
             g = rng.choice([Fraction(1), Fraction(2), Fraction(1, 2), Fraction(3)])
@@ -742,7 +778,7 @@ def gen_sweep(rng, kind, k):
     """one source waveform kind on a first-order RC / RL or a series RLC with Gaussian-rational natural frequencies"""
     sym_was, B.symbolic = B.symbolic, False
     try:
-        whole = kind in ('dc', 'ac', 'sinw', 'cosw')
+        whole = kind in ('dc', 'ac', 'sinw', 'cosw', 'sincosw')
         if k % 3 == 2:
             c = gen_series_rlc(rng, False, [kind])
         else:
@@ -925,6 +961,10 @@ def sw_time(l):
     return Fraction(w[5] if w[4] == 'spdt' else w[4])
 
 
+import re as _re_mod
+_re_E = _re_mod.compile(r'\bE\b')
+
+
 def strip_converted(ivp):
     """text of a circuit returned by convert_IVP: one line per component; the schematic-only copy of an spdt switch
     (`nosim`) is dropped and drawing options after `;` are removed"""
@@ -933,7 +973,13 @@ def strip_converted(ivp):
         x = x.strip()
         if not x or 'nosim' in x:
             continue
-        out.append(x.split(';')[0].strip())
+        x = x.split(';')[0].strip()
+        # Lcapy prints exp(1) as `E`, which its own parser reads back as a free symbol E (a netlist round-trip matter, property
+        # C06, reported there): keep the VALUE Lcapy computed
+        if '{' in x:
+            head, brace = x.split('{', 1)
+            x = head + '{' + _re_E.sub('exp(1)', brace)
+        out.append(x)
     return out
 
 
@@ -1007,7 +1053,7 @@ def run(chk, replay=None):
     state.current_sign_convention = 'passive'
 
     ncases = 100 if quick else 900
-    budget = 135 if quick else 980          # seconds for the generated cases
+    budget = 120 if quick else 980          # seconds for the generated cases
     chk.coverage['rule'] = ('each case = netlist x source waveforms x initial conditions: templates random-1-reactive / random-2-reactive '
                             '(gen_netlist with R,C,L,V,I,E,G,F,H,TF), series / parallel RLC with chosen poles (real, complex-conjugate over the '
                             'Gaussian rationals, repeated), repeated complex-conjugate natural frequencies (identical RLC sections through a buffer; RLC driven at '
@@ -1057,11 +1103,15 @@ def run(chk, replay=None):
             if str(n) == '0':
                 continue
             sigs['V %s' % n] = conv('V %s' % n, cct[n].v)
+        ctrl_names = {l.split(' ')[3] for l in case['lines'] if l[0] == 'H' and len(l.split(' ')) > 4 and ctype(l.split(' ')[3]) in ('C', 'R')}
         for nm in cct.elements:
             ty = ctype(nm)
             if ty in ('K', 'W', 'O', 'P') or nm.startswith('SW'):
                 continue
             el = cct.elements[nm]
+            if nm in ctrl_names:
+                # the controlling element of a CCVS: its current is an unknown of the laws (the measured control branch)
+                sigs['J %s' % nm] = conv('I %s' % nm, el.i)
             if ty in BRANCH_TYPES:
                 i = conv('I %s' % nm, el.i)
                 rep['I %s' % nm] = i
@@ -1618,11 +1668,11 @@ def run(chk, replay=None):
         n_sw0 = 2 if quick else 24         # ... dc circuits switched at t = 0 with a change-over switch / coupled inductors
         n_sw2 = 1 if quick else 10         # ... two switches at different instants
         n_imp = 5 if quick else 50         # ... responses that contain an impulse (capacitor loop / inductor cut-set)
-        n_dir = 4 if quick else 40         # ... gyrator, voltage transformer, ammeter
+        n_dir = 6 if quick else 48         # ... gyrator, voltage transformer, ammeter, CCVS controlled by a capacitor
         n_swp = len(SWEEP_KINDS) if quick else 3 * len(SWEEP_KINDS)     # ... every source waveform kind at least once
         rc_variants = ['cascade', 'resonant', 'resonant-parallel', 'resonant', 'cascade', 'resonant']
         imp_shapes = ['cap-divider', 'ind-cutset', 'cap-across-source', 'cap-loop-ic', 'ind-series-source']
-        dir_shapes = ['gyrator-C', 'tr-am', 'gyrator-RLC', 'am-series']
+        dir_shapes = ['gyrator-C', 'ccvs-cap', 'tr-am', 'ccvs-cap-series', 'gyrator-RLC', 'am-series']
         marks = [n_rc]
         for n in (n_swt, n_sw0, n_sw2, n_imp, n_dir, n_swp):
             marks.append(marks[-1] + n)
@@ -1647,7 +1697,7 @@ def run(chk, replay=None):
                 case['whole_axis'] = False
             elif k < marks[5]:
                 B.symbolic = False
-                case = gen_directed(rng, (k - marks[4]) % 4 == 3, CAUSAL_KINDS, dir_shapes[(k - marks[4]) % len(dir_shapes)])
+                case = gen_directed(rng, (k - marks[4]) % 4 in (1, 3), CAUSAL_KINDS, dir_shapes[(k - marks[4]) % len(dir_shapes)])
                 case['whole_axis'] = False
             elif k < marks[6]:
                 case = gen_sweep(rng, SWEEP_KINDS[(k - marks[5]) % len(SWEEP_KINDS)], k - marks[5])
